@@ -3,6 +3,17 @@
  * used by replacement everywhere else. */
 #ifndef VALUE_API_H
 #define VALUE_API_H
+#ifdef PAYLOAD_LITERAL
+#define ENS_CLONE_LITERAL __CPROVER_ensures((V_IS(this, LITERAL) && !V_ISNULL(this)) ==> IS_FRESH(__CPROVER_return_value._value.p, sizeof(struct std_string)))
+#else
+#define ENS_CLONE_LITERAL
+#endif
+#ifdef PAYLOAD_IMAGINARY
+#define ENS_CLONE_IMAGINARY __CPROVER_ensures((V_IS(this, IMAGINARY) && !V_ISNULL(this)) ==> IS_FRESH(__CPROVER_return_value._value.p, sizeof(struct Imaginary)))
+#else
+#define ENS_CLONE_IMAGINARY
+#endif
+#define ENS_CLONE_PAYLOADS ENS_CLONE_LITERAL ENS_CLONE_IMAGINARY
 
 /* Value& Value::operator=(Value&& v) noexcept : move; the source is left null */
 struct Value *_ZN4bloc5ValueaSEOS0_(struct Value *this, struct Value *v)
@@ -45,6 +56,18 @@ __CPROVER_ensures(SET_EQ(__CPROVER_return_value->_value.i, __CPROVER_old(v->_val
                   SET_EQ(V_MAJOR(__CPROVER_return_value), __CPROVER_old(V_MAJOR(v))) && SET_EQ(V_MINOR(__CPROVER_return_value), __CPROVER_old(V_MINOR(v))) &&
                   SET_EQ(V_LEVEL(__CPROVER_return_value), __CPROVER_old(V_LEVEL(v))))
 __CPROVER_ensures(v->_flags == 0)
+;
+
+/* Value Value::clone() const noexcept : a deep copy; the copy is a temporary (no LVALUE) and shares no
+ * payload with the source (objects excepted, which are reference counted) */
+struct Value _ZNK4bloc5Value5cloneEv(struct Value *this)
+__CPROVER_requires(__exc == 0)
+__CPROVER_assigns()
+__CPROVER_ensures(__exc == 0)
+__CPROVER_ensures(SET_EQ(__CPROVER_return_value._value.i, this->_value.i) && SET_EQ(__CPROVER_return_value._flags, (this->_flags & F_NOTNULL)) &&
+                  SET_EQ(__CPROVER_return_value._type._major, V_MAJOR(this)) && SET_EQ(__CPROVER_return_value._type._minor, V_MINOR(this)) &&
+                  SET_EQ(__CPROVER_return_value._type._level, V_LEVEL(this)))
+ENS_CLONE_PAYLOADS
 ;
 
 /* Value::Value(Imaginary * v) : takes ownership of v (null pointer => typed null) */
